@@ -61,8 +61,10 @@ def package_dir():
     return os.path.dirname(os.path.realpath(jaxtyping.__file__)) + os.sep
 
 
-def run_threads(workloads, schedule):
+def run_threads(workloads, schedule, fine=False):
     """workloads: {tid: callable returning an observation}; returns ({tid: obs}, controller)
+    fine=True: additionally every LINE executed inside jaxtyping/_storage.py is a yield point ("line"): the storage
+    functions themselves are not atomic, a context switch can fall between two of their statements.
     Yield points: every call of a function defined in jaxtyping/_storage.py (named by the function)
     and every call of any other function of the jaxtyping package ("other": a pure preemption point,
     e.g. between the prefix and the suffix walk of one array check)."""
@@ -73,11 +75,18 @@ def run_threads(workloads, schedule):
     results = {}
 
     def runner(tid, fn):
+        def linetracer(frame, event, arg):
+            if event == "line":
+                ctl.yield_point(tid, "line")
+            return linetracer
+
         def tracer(frame, event, arg):
             if event == "call":
                 fn = frame.f_code.co_filename
                 if fn == sf:
                     ctl.yield_point(tid, frame.f_code.co_name)
+                    if fine:
+                        return linetracer
                 elif fn in checkfiles:
                     ctl.yield_point(tid, "other")
             return None
